@@ -1,6 +1,7 @@
 package main
 
 import (
+	"math"
 	"bytes"
 	"fmt"
 	"strconv"
@@ -200,6 +201,8 @@ var c04Globals = data.Map{
 	"G_NULL": data.Null{}, "G_T": data.Bool(true), "G_F": data.Bool(false), "G_I": data.Int(42),
 	"G_BIG": data.Int(1 << 52), "G_FL": data.Float(2.5), "G_FL3": data.Float(3), "G_S": data.String("he said 'hi'\n</script>\\ "),
 	"G_S2": data.String("plain"),
+	// floats that have no decimal spelling (reachable through AddGlobalsMap / a globals file line like X = 1/0)
+	"G_INF": data.Float(math.Inf(1)), "G_NINF": data.Float(math.Inf(-1)), "G_NZERO": data.Float(math.Copysign(0, -1)),
 }
 
 const c04IJ = `{"foo":"ij<>","bar":{"baz":7}}`
@@ -469,6 +472,9 @@ var c04Hands = []c04Hand{
 	{"c04:escapeHtml-nul", "{namespace h}\n/** @param s */\n{template .t}[{$s}]{/template}\n", `{"s":"a\u0000b"}`},
 	{"c04:switch-default-first", "{namespace h}\n/** @param x */\n{template .t}{switch $x}{default}D{case 1}one{/switch}{/template}\n", `{"x":1}`},
 	{"c04:loopfunc-of-for-range", "{namespace h}\n{template .t}{for $i in range(1, 4)}{index($i)}{if isFirst($i)}F{/if}{if isLast($i)}L{/if} {/for}{/template}\n", `{}`},
+	{"c04:ifempty-of-range-loop", "{namespace h}\n/** @param n */\n{template .t}{foreach $i in range($n)}[{$i}]{ifempty}nothing{/foreach}|{for $i in range(2, $n)}{$i}{ifempty}E{let $i: 'x' /}{$i}{/for}|{foreach $i in range(0, 3, 2)}{$i}{ifempty}no{/foreach}{/template}\n", `{"n":0}`},
+	{"c04:ifempty-of-range-loop", "{namespace h}\n/** @param n */\n{template .t}{foreach $i in range($n)}[{$i}]{ifempty}nothing{/foreach}{/template}\n", `{"n":2}`},
+	{"c04:non-finite-float-global", "{namespace h}\n{template .t}{G_INF} {G_NINF} {G_NZERO} {G_INF > 1 ? 'big' : 'small'} {G_NINF + 1}{/template}\n", `{}`},
 	{"c04:ok:loops", "{namespace h}\n/** @param l */\n{template .t}{foreach $a in $l}{foreach $b in $l}{$a}{$b}{if isFirst($b)}F{/if}{if isLast($b)}L{/if}{index($b)}{ifempty}E{/foreach}{if isLast($a)}L{/if}|{ifempty}none{/foreach}{for $i in range(1, 7, 2)}{$i}{/for}{/template}\n", `{"l":[1,2,3]}`},
 }
 
